@@ -147,10 +147,10 @@ WAYS_OF_EMPTY = ['Pregex()', "Pregex('')", "Exactly('a', 0)", "Pregex('a') * 0",
 def run_C05(run):
     q, gq, an, bi = dsl.quantifier_ops(), dsl.group_ops(), dsl.anchor_ops(), dsl.binary_ops()
     ways = al.atom_list([], WAYS_OF_EMPTY)
-    partners = al.atom_list(['a', 'a|b'], ['Pregex()', 'Concat()', "Exactly('a', 0)", 'AnyDigit()', "Either('a', 'b')"])
+    partners = al.atom_list(['', 'a', 'a|b', 'a.b'], ['Pregex()', 'Concat()', "Exactly('a', 0)", 'AnyDigit()', "Either('a', 'b')"])
     L = explore.Level
     extra = [(ways, [L(q + gq + an, bi + dsl.cond_ops()[1:], partners, (0, 1), 'ways of being empty, depth 1: all ops'),
-                     L(dsl.core_quantifier_ops() + gq, bi, partners[:4], (0, 1), 'ways of being empty, depth 2')], False)]
+                     L(dsl.core_quantifier_ops() + gq, bi, partners[:5], (0, 1), 'ways of being empty, depth 2')], False)]
     cov, assumptions = _run(run, [monitors.C05()], extra)
     # every way of being empty reaches the single canonical empty state
     from ..common import V
